@@ -43,14 +43,17 @@ def _hhea_contract(tag):
             f"all(g in {M} and g in {B} for g in {O})",
         ],
         ensures={
-            "advance-max": f"all({T_}.{advMax} >= {adv('g')} for g in {O}) and (any({T_}.{advMax} == {adv('g')} for g in {O}) or (len({O}) == 0 and {T_}.{advMax} == 0))",
+            # (each field: a bound over all glyphs, and "attained by some glyph" — two clauses, so that each obligation has
+            #  one quantifier shape)
+            "advance-max-bound": f"all({T_}.{advMax} >= {adv('g')} for g in {O})",
+            "advance-max-attained": f"any({T_}.{advMax} == {adv('g')} for g in {O}) or (len({O}) == 0 and {T_}.{advMax} == 0)",
             # bearings / extent range over the glyphs that HAVE a bounding box only
-            "min-first-bearing": f"all(implies({B}[g] is not None, {T_}.{minFirst} <= {fsb('g')}) for g in {O})"
-            f" and (any({B}[g] is not None and {T_}.{minFirst} == {fsb('g')} for g in {O}) or (not {has} and {T_}.{minFirst} == 0))",
-            "min-second-bearing": f"all(implies({B}[g] is not None, {T_}.{minSecond} <= {adv('g')} - {fsb('g')} - {span('g')}) for g in {O})"
-            f" and (any({B}[g] is not None and {T_}.{minSecond} == {adv('g')} - {fsb('g')} - {span('g')} for g in {O}) or (not {has} and {T_}.{minSecond} == 0))",
-            "max-extent": f"all(implies({B}[g] is not None, {T_}.{maxExt} >= {fsb('g')} + {span('g')}) for g in {O})"
-            f" and (any({B}[g] is not None and {T_}.{maxExt} == {fsb('g')} + {span('g')} for g in {O}) or (not {has} and {T_}.{maxExt} == 0))",
+            "min-first-bearing-bound": f"all(implies({B}[g] is not None, {T_}.{minFirst} <= {fsb('g')}) for g in {O})",
+            "min-first-bearing-attained": f"any({B}[g] is not None and {T_}.{minFirst} == {fsb('g')} for g in {O}) or (not {has} and {T_}.{minFirst} == 0)",
+            "min-second-bearing-bound": f"all(implies({B}[g] is not None, {T_}.{minSecond} <= {adv('g')} - {fsb('g')} - {span('g')}) for g in {O})",
+            "min-second-bearing-attained": f"any({B}[g] is not None and {T_}.{minSecond} == {adv('g')} - {fsb('g')} - {span('g')} for g in {O}) or (not {has} and {T_}.{minSecond} == 0)",
+            "max-extent-bound": f"all(implies({B}[g] is not None, {T_}.{maxExt} >= {fsb('g')} + {span('g')}) for g in {O})",
+            "max-extent-attained": f"any({B}[g] is not None and {T_}.{maxExt} == {fsb('g')} + {span('g')} for g in {O}) or (not {has} and {T_}.{maxExt} == 0)",
             # the long-metric count is the SMALLEST count whose decoding reproduces every advance
             "long-metrics": f"implies(len({O}) > 0, 1 <= {T_}.{num} and {T_}.{num} <= len({O})"
             f" and all({adv(f'{O}[k]')} == {adv(f'{O}[len({O}) - 1]')} for k in range({T_}.{num} - 1, len({O})))"
